@@ -13,7 +13,7 @@ GCODE = {"control": 0, "control-": 1, "integrator": 2, "integrator_roots": 3}
 
 OPTS = {"methods": ["MS", "SS", "DC"], "intgs": ["rk", "expl_euler"], "N_max": 4, "M_max": 3, "deg_max": 3,
         "constraints": False, "objective": False, "p_quad": 0.5, "p_freeT": 0.3, "p_freet0": 0.2,
-        "grids": ("Uniform", "Geometric", "Function")}
+        "grids": ("Uniform", "Geometric", "Function"), "p_dae": 0.5}
 
 
 def gen_specs(rng, case):
@@ -38,6 +38,14 @@ def gen_specs(rng, case):
                 e = [e[0], e[1], gen.add_offsets(rng, e[2], p=0.5, offs=(-1, 1, 2))]
             exprs.append(e)
         specs.append({"grid": grid, "rows": r, "cols": c, "exprs": exprs})
+    if case.get("algebraics"):
+        # algebraic variables on every grid (their values at integrator points come from the step's own helper values)
+        from ..cases import nslots
+        nz = nslots(case["algebraics"])
+        for grid in ("integrator", rng.choice(["control", "integrator_roots"])):
+            j = rng.randrange(nz)
+            e = ["+", ["s", "z", j], ["*", gen.C(gen.dyadic_nz(rng, -2, 2, 1)), ["s", "x", 0]]]
+            specs.append({"grid": grid, "rows": 1, "cols": 1, "exprs": [e]})
     vals = []
     for _ in range(rng.randint(1, 2)):
         syms = [["g", s[1], s[2]] for s in gen.sym_list(case, ["p", "v"])] + [["g", s[1]] for s in gen.sym_list(case, ["T", "t0"])]
